@@ -46,6 +46,16 @@ def postingImage (p : Posting) : RPosting :=
 /-- **the transaction the text was written from, as the balance specification sees it** -/
 def txImage (t : Tx) : RTx := t.postings.map postingImage
 
+/-- number of postings written without an amount -/
+def amountless (t : Tx) : Nat := (t.postings.filter fun p => p.amount.isNone).length
+
+/-- the exact sum of the values written in commodity `c`, in posting order -/
+def writtenSum (t : Tx) (c : Bytes) : Rat :=
+  sumRat (t.postings.filterMap fun p =>
+    match p.amount with
+    | none => none
+    | some a => if amountCommodity a = c then some (amountValue a) else none)
+
 /-- Where the transactions stand in the printed text: a transaction whose header is line `ln`
     (1-based) starting at byte offset `o` extends from the first byte of its header to column 1
     of the line behind its last posting; the next one starts two lines further (one empty line
